@@ -63,6 +63,17 @@ fn main() {
     let prop: &'static str = Box::leak(args[2].clone().into_boxed_str());
     let tier = args[3].as_str();
     let shard = args.get(4).map(|s| s.as_str());
+    // Some library blocks print every sample to stdout (DebugSink): keep that
+    // out of the result channel.
+    let saved_stdout = unsafe {
+        use std::io::Write;
+        std::io::stdout().flush().ok();
+        let saved = libc::dup(1);
+        let null = libc::open(c"/dev/null".as_ptr(), libc::O_WRONLY);
+        libc::dup2(null, 1);
+        libc::close(null);
+        saved
+    };
     let rep = match args[1].as_str() {
         "ring" => ring::run(prop, tier, shard),
         "env" => env_run(prop, tier, shard),
@@ -76,6 +87,12 @@ fn main() {
         "e2e" => e2e::run(tier, shard),
         _ => usage(),
     };
+    unsafe {
+        use std::io::Write;
+        std::io::stdout().flush().ok();
+        libc::dup2(saved_stdout, 1);
+        libc::close(saved_stdout);
+    }
     rep.emit();
 }
 
@@ -136,6 +153,7 @@ fn env_run(prop: &'static str, tier: &str, shard: Option<&str>) -> Report {
     if prop == "C19" && i == 0 {
         subjects_derive::eof_matrix(&mut rep);
     }
+    let _ = std::fs::remove_dir_all(std::env::temp_dir().join(format!("verif-pdu-{}", std::process::id())));
     if matches!(prop, "C16" | "C14" | "C12") {
         subjects_src::cleanup();
     }
